@@ -1,6 +1,6 @@
 /* function harness for qmail-smtpd.c blast(): the real function; network input, network
    output and the pipe to qmail-queue replaced by memory buffers.
-   Protocol: "dec <hex stream> <chunk>" -> "D <body> <rest> <hops>" | "X" (451 stray newline)
+   Protocol: "dec <hex stream> <chunk> [<databytes>]" -> "D <body> <rest> <hops> [F<flagerr>]" | "X" (451 stray newline)
    | "N <body>" (input exhausted = client gone, die_read) | "E <code>" */
 #include "h_common.h"
 static jmp_buf h_jmp;
@@ -35,6 +35,7 @@ int main(void) {
   while (fgets(line, sizeof line, stdin)) {
     char *p = strchr(line, ' '); if (!p) continue;
     char *q = strchr(p + 1, ' ');
+    char *q2 = q ? strchr(q + 1, ' ') : 0;
     int hops = -1;
     h_in = in; h_inlen = h_unhex(p + 1, in); h_inpos = 0; h_chunk = q ? atoi(q + 1) : 0;
     h_outlen = 0; h_replylen = 0;
@@ -43,13 +44,16 @@ int main(void) {
       ssin = tin; ssout = tout; }
     qqt.flagerr = 0;
     substdio_fdbuf(&qqt.ss, h_write, -1, qqt.buf, sizeof qqt.buf);
-    bytestooverflow = 0;
+    databytes = q2 ? strtoul(q2 + 1, 0, 10) : 0;         /* as smtp_data() arms the size limit */
+    bytestooverflow = databytes ? databytes + 1 : 0;
     if (!setjmp(h_jmp)) {
       blast(&hops);
       substdio_flush(&qqt.ss);
       fputs("D ", h_res); h_puthex(h_out, h_outlen); fputc(' ', h_res);
       h_puthex(h_in + (h_inpos - ssin.p), h_inlen - (h_inpos - ssin.p));
-      fprintf(h_res, " %d\n", hops);
+      fprintf(h_res, " %d", hops);
+      if (databytes) fprintf(h_res, " F%d", qqt.flagerr);
+      fputc('\n', h_res);
     } else if (h_code == 1000) {
       substdio_flush(&qqt.ss);
       fputs("N ", h_res); h_puthex(h_out, h_outlen); fputc('\n', h_res);
